@@ -29,7 +29,7 @@ EXPLANATION = ("theorems: for ALL histories of requests the abstract cache (key 
                "hand-written list in M_CacheKey.v (tested, not proved, by the histories: inputs left out of the key are "
                "varied too); inputs of cython_inline other than the listed ones (module-level options, pxd files reached "
                "through argument types) are not enumerated; in-process reuse of Cython's @cached_function state across "
-               "two builds is outside the histories (one process per request, as in a build).")
+               "two builds is outside the histories (one process per request, as in a build); that store_to_cache/load_from_cache keep the whole result is tested only (finding: the listing file is not stored).")
 TRUSTED = ["SHA-256 collision freedom (Section hypothesis hash_inj)",
            "the real key serialisations (repr of sorted option items, concatenated hex digests, str(tuple)) are "
            "injective like the model's length-prefixed encoding",
@@ -796,9 +796,16 @@ def run(ctx):
                                if src and comp_values(rq).get(c) != comp_values(seq[src[-1]]).get(c))
                 klass = classify_stale(mode, [c for c in (diffc or comps) if is_directive(c) and c != "opt:compiler_directives"
                                               or c in req_set] or (diffc or comps), hit)
+                only_lis = (hit and rq["opt"].get("use_listing_file") and res.get("error") is None
+                            and fresh.get("error") is None and res["artifacts"] ==
+                            {k: v for k, v in fresh["artifacts"].items() if not k.endswith(".lis")})
+                if only_lis:
+                    # a correct hit (same key) whose restored file set lacks the listing file: store_to_cache
+                    # keeps only get_generated_source_files(); outside the key model (which stores results whole)
+                    klass = "listing_file_not_restored_on_hit"
                 ctx.fail(klass, dict(inp, differs_from_cached_request_in=diffc), digest(res), digest(fresh),
                          note="cache %s; model predicted %s" % ("hit" if hit else "miss", pred[i]))
-                if not pred[i].endswith("!"):
+                if not pred[i].endswith("!") and not only_lis:
                     ctx.corr_break("cachekey:stale-not-predicted", inp, "stale", pred[i])
     ctx.note("cythonize/compile histories: %d, steps with a stale result: %d" % (len(plans), nstale))
 
